@@ -8,8 +8,11 @@ import (
 	"encoding/hex"
 	"encoding/json"
 	"fmt"
+	"github.com/theparanoids/ysshra/internal/zzverif/fix"
 	"io"
+	"os"
 	"runtime"
+	"strings"
 	"time"
 
 	"github.com/theparanoids/ysshra/agent/yubiagent"
@@ -33,6 +36,7 @@ type c12Case struct {
 	Before  []c12Piece `json:",omitempty"` // an earlier connection to the SAME server, served to its end before this one
 	Note    string
 	UAFault map[string]string `json:",omitempty"` // underlying-agent request index -> fault kind (relaxed oracle: service may end there, but only with an error)
+	Local   bool              `json:",omitempty"` // the server runs in local mode (slot requests shell out to a fake PIV tool on PATH)
 }
 
 type rw struct {
@@ -102,7 +106,7 @@ func c12Run(c *ev.Ctx, k c12Case, single bool) {
 	c.Eval()
 	c.Crumb(k)
 	stream, frames := c12Build(k)
-	w, err := newYWorld(true)
+	w, err := newYWorld(!k.Local)
 	if err != nil {
 		c.Violation("C12:harness:newserver", err.Error(), k)
 		return
@@ -251,7 +255,7 @@ func c12Run(c *ev.Ctx, k c12Case, single bool) {
 }
 
 func checkC12(c *ev.Ctx) {
-	c.Rule("yubiagent.ServeAgent called synchronously on (bytes.Reader, bytes.Buffer) with the real *server (NewServer through the dial seam, remote mode) over the real shim and the harness underlying agent. Streams: every message code 0..255 x {code only, +00, +FF, +4 zero bytes} (wait frames use awaited codes 40/255), the empty frame, ~90 grammar-derived canonical and truncated frames (both add-hardware-certificate encodings, slot names, wait, every standard agent request incl. constraint bytes, raw-forward requests; a frame-length sweep: codes {200, 20, 27, 13, 31, 33} x every body length 1..2100 for the raw-forwarded code, windows of 13 around every multiple of 128 for the others, and within 6 of every power of two up to 2^17, each followed by a list request; a size ladder of well-formed sign / raw / add requests with bodies of 64 KiB, 256 KiB, 256 KiB+1, 1 MiB, 4 MiB and exactly 16 MiB, alone and between small requests; every ordered pair over 8 and triple over 5 medium/large requests on one connection; 147 streams with an add-hardware-certificate request (3 encodings) between large requests, followed by a listing and a signature with that certificate; every large frame up to 1 MiB cut inside its body at every power of two >= 4096 and its neighbours (body and stream offsets), alone and after a complete request), prefix pathologies (0..3 prefix bytes; declared 1, 2, 16MiB, 16MiB+1, 2^31, 2^32-1 with 0/1/all body bytes), every ordered pair of a 37-piece representative set, every piece on a SECOND connection after an earlier connection to the same server ended in one of 8 ways, every triple over a 20-piece subset (thorough: all triples, quadruples over 14). Oracle: no crash, framed output, one response per well-formed request in order with the expected type/content, service ends only at malformed frames and then with an error, clean end returns nil, a stream that ends inside a frame ends with an error, allocation bound for oversized declarations. non-trivial = well-formed request answered; distinct by (frame, position)")
+	c.Rule("yubiagent.ServeAgent called synchronously on (bytes.Reader, bytes.Buffer) with the real *server (NewServer through the dial seam, remote mode) over the real shim and the harness underlying agent. Streams (remote mode unless stated; 318 slot-request streams in local mode with a fake PIV tool: every slot name of 0..3 characters over a 5-symbol alphabet for read and attest): every message code 0..255 x {code only, +00, +FF, +4 zero bytes} (wait frames use awaited codes 40/255), the empty frame, ~90 grammar-derived canonical and truncated frames (both add-hardware-certificate encodings, slot names, wait, every standard agent request incl. constraint bytes, raw-forward requests; a frame-length sweep: codes {200, 20, 27, 13, 31, 33} x every body length 1..2100 for the raw-forwarded code, windows of 13 around every multiple of 128 for the others, and within 6 of every power of two up to 2^17, each followed by a list request; a size ladder of well-formed sign / raw / add requests with bodies of 64 KiB, 256 KiB, 256 KiB+1, 1 MiB, 4 MiB and exactly 16 MiB, alone and between small requests; every ordered pair over 8 and triple over 5 medium/large requests on one connection; 147 streams with an add-hardware-certificate request (3 encodings) between large requests, followed by a listing and a signature with that certificate; every large frame up to 1 MiB cut inside its body at every power of two >= 4096 and its neighbours (body and stream offsets), alone and after a complete request), prefix pathologies (0..3 prefix bytes; declared 1, 2, 16MiB, 16MiB+1, 2^31, 2^32-1 with 0/1/all body bytes), every ordered pair of a 37-piece representative set, every piece on a SECOND connection after an earlier connection to the same server ended in one of 8 ways, every triple over a 20-piece subset (thorough: all triples, quadruples over 14). Oracle: no crash, framed output, one response per well-formed request in order with the expected type/content, service ends only at malformed frames and then with an error, clean end returns nil, a stream that ends inside a frame ends with an error, allocation bound for oversized declarations. non-trivial = well-formed request answered; distinct by (frame, position)")
 	c.Assume("frames are classified well-formed only when they are canonical encodings produced by the harness grammar (x/crypto's own client for standard requests); for everything else either 'answered' or 'connection ended with an error' is accepted", "awaited codes below 40 block by design and are explored under C20")
 	c12Frames = map[string]frameSpec{}
 	gf := grammarFrames()
@@ -314,6 +318,37 @@ func checkC12(c *ev.Ctx) {
 			}
 		}
 		c.Set("length_sweep_streams", nl)
+	}
+	// slot requests on a LOCAL-mode server (a fake PIV tool on PATH answers with a certificate / a status listing): every
+	// slot name of 0..3 characters over {9, a, space, 0xff, '-'} and three longer ones, for read and attest, each followed
+	// by a slot listing and a list request - whatever the name, one response per request and no crash
+	{
+		piv := newPivEnv()
+		piv.set(fix.PEMCert(c13Certs()[0].Raw), 0)
+		var names []string
+		var rec func(pre string, d int)
+		rec = func(pre string, d int) {
+			names = append(names, pre)
+			if d == 3 {
+				return
+			}
+			for _, ch := range []string{"9", "a", " ", "\xff", "-"} {
+				rec(pre+ch, d+1)
+			}
+		}
+		rec("", 0)
+		names = append(names, "9a9a", strings.Repeat("9", 64), "9a -s 9c")
+		nl := 0
+		for _, code := range []byte{33, 34} {
+			for _, nm := range names {
+				body := append([]byte{code}, []byte(nm)...)
+				c12Run(c, c12Case{Local: true, Pieces: []c12Piece{{Body: hex.EncodeToString(body)}, {Body: "20"}, {Frame: "list"}}, Note: fmt.Sprintf("local mode: slot request %d with a %d-character name", code, len(nm))}, false)
+				n++
+				nl++
+			}
+		}
+		c.Set("local_mode_slot_streams", nl)
+		os.RemoveAll(piv.dir)
 	}
 	// several large requests on ONE connection, in every order of sizes (per-connection buffers reused across requests)
 	{
